@@ -151,6 +151,28 @@ def _import_http2():
 
 _h2mod = _import_http2()
 
+
+class _NS:
+    def __init__(self, **k):
+        self.__dict__.update(k)
+
+
+def _shim_h2():
+    """H2Connection.__init__ builds an h2.connection.H2Connection (hpack tables etc.) that the harness replaces
+    by the fake right away; the name `h2` in twisted.web._http2 is rebound to a namespace whose
+    config.H2Configuration / connection.H2Connection build nothing (events, exceptions, errors, settings are
+    the real h2 modules)."""
+    import h2.errors
+    import h2.events
+    import h2.exceptions
+    import h2.settings
+    real = _h2mod.h2
+    return _NS(config=_NS(H2Configuration=lambda **k: None), connection=_NS(H2Connection=lambda **k: None),
+               events=h2.events, exceptions=h2.exceptions, errors=h2.errors, settings=h2.settings, __real__=real)
+
+
+_h2mod.h2 = _shim_h2()
+
 import h2.events as _ev  # noqa: E402
 import h2.exceptions as _hx  # noqa: E402
 import h2.settings as _hs  # noqa: E402
@@ -593,10 +615,11 @@ class _World:
         return True
 
     def invariant(self):
-        """representation invariant of the sending machinery (J1-J4), see ASSUMPTIONS"""
+        """representation invariant of the sending machinery (J1-J4), see ASSUMPTIONS; one formula (the
+        comparisons on symbolic windows are not branched on here)"""
         c = self.c
-        if c._sendingDeferred is not None and self.tree.any_active():
-            return False                                    # J1: idle loop, yet a stream is schedulable
+        idle = c._sendingDeferred is not None
+        ok = True
         for i in range(self.ns):
             if not self.live(i):
                 continue
@@ -604,17 +627,21 @@ class _World:
             q = c._outboundStreamQueues[sid]
             act = self.tree.is_active(sid)
             if act and len(q) == 0:
-                return False                                # J3: scheduled stream has something queued
+                return False                                # J3: a schedulable stream has something queued
             if self.done[i] and not act:
                 return False                                # J2b: a finished stream is schedulable
+            closed_window = self.fc.local_flow_control_window(sid) <= 0
+            if idle and act:
+                # J1: the loop sleeps on _sendingDeferred only while no schedulable stream could make progress
+                if q[0] is _SENT:
+                    return False
+                ok = rope.band(ok, closed_window)
             if len(q) > 0 and not act:
-                if self.fc.local_flow_control_window(sid) > 0:
-                    return False                            # J2a: data + open window => schedulable
+                ok = rope.band(ok, closed_window)           # J2a: data + open window => schedulable
             st = self.streams[i]
             if st.producer is not None and not st._producerProducing:
-                if c.remainingOutboundWindow(sid) > 0:
-                    return False                            # J4: paused producer only while no room
-        return True
+                ok = rope.band(ok, c.remainingOutboundWindow(sid) <= 0)     # J4: paused only while no room
+        return ok
 
     def healthy(self):
         if self.fc.errors:
@@ -623,9 +650,7 @@ class _World:
             return False
         if not self.end_marks_ok():
             return False
-        if not self.conserved():
-            return False
-        return self.invariant()
+        return rope.band(self.conserved(), self.invariant())
 
 
 # ---- arbitrary pre-state (constructed directly on a connection whose streams came through _requestReceived) ---
@@ -697,15 +722,63 @@ def _prod_state(w, i):
     return 1 if st._producerProducing else 2
 
 
-_STATE_PRE = """
-    pre: 1 <= ns <= B['ns'] and 0 <= cw <= B['cap'] and 1 <= mfs <= B['cap']
-    pre: -B['cap'] <= sw0 <= B['cap'] and 0 <= s00 <= B['cap'] and 0 <= nq0 <= 2 and 0 <= q10 <= B['cap'] and 0 <= q20 <= B['cap'] and 0 <= prod0 <= 2
-    pre: -B['cap'] <= sw1 <= B['cap'] and 0 <= s01 <= B['cap'] and 0 <= nq1 <= 2 and 0 <= q11 <= B['cap'] and 0 <= q21 <= B['cap'] and 0 <= prod1 <= 2
-    pre: -B['cap'] <= sw2 <= B['cap'] and 0 <= s02 <= B['cap'] and 0 <= nq2 <= 2 and 0 <= q12 <= B['cap'] and 0 <= q22 <= B['cap'] and 0 <= prod2 <= 2
-    pre: (nq0 >= 1 or q10 == 0) and (nq0 >= 2 or q20 == 0) and (nq1 >= 1 or q11 == 0) and (nq1 >= 2 or q21 == 0) and (nq2 >= 1 or q12 == 0) and (nq2 >= 2 or q22 == 0)
-    pre: ns >= 2 or (sw1 == 0 and s01 == 0 and nq1 == 0 and not done1 and not act1 and prod1 == 0)
-    pre: ns >= 3 or (sw2 == 0 and s02 == 0 and nq2 == 0 and not done2 and not act2 and prod2 == 0)
-"""
+def _all(*cs):
+    """conjunction of (symbolic) bools as ONE z3 term, no forks"""
+    lib = rope._chlib()
+    if lib is None:
+        for x in cs:
+            if not x:
+                return False
+        return True
+    z3, SInt, SBool, NoTracing = lib
+    with NoTracing():
+        terms = []
+        rest = []
+        for x in cs:
+            if isinstance(x, SBool):
+                terms.append(x.var)
+            elif x is True:
+                pass
+            elif x is False:
+                return False
+            else:
+                rest.append(x)
+        if not rest:
+            if not terms:
+                return True
+            return SBool(z3.And(*terms))
+    ok = True
+    for x in cs:
+        ok = rope.band(ok, x)
+    return ok
+
+
+def _rng(lo, x, hi):
+    return rope.band(lo <= x, x <= hi)
+
+
+def _imp(a, b2):
+    return rope.bor(rope.bnot(a), b2)
+
+
+def _stream_pre(used, sw, s0, nq, q1, q2, done, act, prod):
+    cap = B['cap']
+    shape = _all(-cap <= sw, sw <= cap, 0 <= s0, s0 <= cap, 0 <= nq, nq <= 2, 0 <= q1, q1 <= cap, 0 <= q2, q2 <= cap,
+                 0 <= prod, prod <= 2, rope.bor(nq >= 1, q1 == 0), rope.bor(nq >= 2, q2 == 0),
+                 _imp(act, rope.bor(nq >= 1, done)),        # J3: schedulable => something queued
+                 _imp(done, act))                           # J2b: finished => schedulable
+    if used is True:
+        return shape
+    unused = _all(sw == 0, s0 == 0, nq == 0, rope.bnot(done), rope.bnot(act), prod == 0)
+    return rope.band(shape, rope.bor(used, unused))
+
+
+def _state_pre(ns, cw, mfs, a, b2, c3):
+    """the whole precondition as ONE formula (a chain of `and` in a pre: line would be explored branch by
+    branch before the shard conditions are seen)"""
+    return _all(_rng(1, ns, B['ns']), _rng(0, cw, B['cap']), _rng(1, mfs, B['cap']),
+                _stream_pre(True, *a), _stream_pre(ns >= 2, *b2), _stream_pre(ns >= 3, *c3))
+
 
 
 def step_turn(ns: int, cw: int, mfs: int, cb: bool, pick: int,
@@ -713,14 +786,8 @@ def step_turn(ns: int, cw: int, mfs: int, cb: bool, pick: int,
               sw1: int, s01: int, nq1: int, q11: int, q21: int, done1: bool, act1: bool, prod1: int,
               sw2: int, s02: int, nq2: int, q12: int, q22: int, done2: bool, act2: bool, prod2: int) -> bool:
     """
-    pre: 1 <= ns <= B['ns'] and 0 <= cw <= B['cap'] and 1 <= mfs <= B['cap']
-    pre: -B['cap'] <= sw0 <= B['cap'] and 0 <= s00 <= B['cap'] and 0 <= nq0 <= 2 and 0 <= q10 <= B['cap'] and 0 <= q20 <= B['cap'] and 0 <= prod0 <= 2
-    pre: -B['cap'] <= sw1 <= B['cap'] and 0 <= s01 <= B['cap'] and 0 <= nq1 <= 2 and 0 <= q11 <= B['cap'] and 0 <= q21 <= B['cap'] and 0 <= prod1 <= 2
-    pre: -B['cap'] <= sw2 <= B['cap'] and 0 <= s02 <= B['cap'] and 0 <= nq2 <= 2 and 0 <= q12 <= B['cap'] and 0 <= q22 <= B['cap'] and 0 <= prod2 <= 2
-    pre: (nq0 >= 1 or q10 == 0) and (nq0 >= 2 or q20 == 0) and (nq1 >= 1 or q11 == 0) and (nq1 >= 2 or q21 == 0) and (nq2 >= 1 or q12 == 0) and (nq2 >= 2 or q22 == 0)
-    pre: ns >= 2 or (sw1 == 0 and s01 == 0 and nq1 == 0 and not done1 and not act1 and prod1 == 0)
-    pre: ns >= 3 or (sw2 == 0 and s02 == 0 and nq2 == 0 and not done2 and not act2 and prod2 == 0)
-    pre: 0 <= pick <= 2
+    pre: _state_pre(ns, cw, mfs, (sw0, s00, nq0, q10, q20, done0, act0, prod0), (sw1, s01, nq1, q11, q21, done1, act1, prod1), (sw2, s02, nq2, q12, q22, done2, act2, prod2))
+    pre: _rng(0, pick, 2)
     post: _
     """
     per = _per(ns, (sw0, s00, nq0, q10, q20, done0, act0, prod0), (sw1, s01, nq1, q11, q21, done1, act1, prod1),
@@ -779,15 +846,8 @@ def step_event(ns: int, cw: int, mfs: int, cb: bool, loop: int, ev: int, k: int,
                sw1: int, s01: int, nq1: int, q11: int, q21: int, done1: bool, act1: bool, prod1: int,
                sw2: int, s02: int, nq2: int, q12: int, q22: int, done2: bool, act2: bool, prod2: int) -> bool:
     """
-    pre: 1 <= ns <= B['ns'] and 0 <= cw <= B['cap'] and 1 <= mfs <= B['cap']
-    pre: -B['cap'] <= sw0 <= B['cap'] and 0 <= s00 <= B['cap'] and 0 <= nq0 <= 2 and 0 <= q10 <= B['cap'] and 0 <= q20 <= B['cap'] and 0 <= prod0 <= 2
-    pre: -B['cap'] <= sw1 <= B['cap'] and 0 <= s01 <= B['cap'] and 0 <= nq1 <= 2 and 0 <= q11 <= B['cap'] and 0 <= q21 <= B['cap'] and 0 <= prod1 <= 2
-    pre: -B['cap'] <= sw2 <= B['cap'] and 0 <= s02 <= B['cap'] and 0 <= nq2 <= 2 and 0 <= q12 <= B['cap'] and 0 <= q22 <= B['cap'] and 0 <= prod2 <= 2
-    pre: (nq0 >= 1 or q10 == 0) and (nq0 >= 2 or q20 == 0) and (nq1 >= 1 or q11 == 0) and (nq1 >= 2 or q21 == 0) and (nq2 >= 1 or q12 == 0) and (nq2 >= 2 or q22 == 0)
-    pre: ns >= 2 or (sw1 == 0 and s01 == 0 and nq1 == 0 and not done1 and not act1 and prod1 == 0)
-    pre: ns >= 3 or (sw2 == 0 and s02 == 0 and nq2 == 0 and not done2 and not act2 and prod2 == 0)
-    pre: 0 <= loop <= 2 and (cb or loop != 2) and 0 <= ev <= 3 and 0 <= k < ns
-    pre: (ev <= 1 and 1 <= x <= B['cap']) or (ev == 2 and -B['cap'] <= x <= B['cap']) or (ev == 3 and 1 <= x <= B['cap'])
+    pre: _state_pre(ns, cw, mfs, (sw0, s00, nq0, q10, q20, done0, act0, prod0), (sw1, s01, nq1, q11, q21, done1, act1, prod1), (sw2, s02, nq2, q12, q22, done2, act2, prod2))
+    pre: _all(_rng(0, loop, 2), rope.bor(cb, loop != 2), _rng(0, ev, 3), _rng(0, k, ns - 1), _rng(-B['cap'], x, B['cap']), rope.bor(ev == 2, x >= 1))
     post: _
     """
     per = _per(ns, (sw0, s00, nq0, q10, q20, done0, act0, prod0), (sw1, s01, nq1, q11, q21, done1, act1, prod1),
@@ -825,16 +885,8 @@ def step_app(ns: int, cw: int, mfs: int, cb: bool, loop: int, op: int, k: int, x
              sw1: int, s01: int, nq1: int, q11: int, q21: int, done1: bool, act1: bool, prod1: int,
              sw2: int, s02: int, nq2: int, q12: int, q22: int, done2: bool, act2: bool, prod2: int) -> bool:
     """
-    pre: 1 <= ns <= B['ns'] and 0 <= cw <= B['cap'] and 1 <= mfs <= B['cap']
-    pre: -B['cap'] <= sw0 <= B['cap'] and 0 <= s00 <= B['cap'] and 0 <= nq0 <= 2 and 0 <= q10 <= B['cap'] and 0 <= q20 <= B['cap'] and 0 <= prod0 <= 2
-    pre: -B['cap'] <= sw1 <= B['cap'] and 0 <= s01 <= B['cap'] and 0 <= nq1 <= 2 and 0 <= q11 <= B['cap'] and 0 <= q21 <= B['cap'] and 0 <= prod1 <= 2
-    pre: -B['cap'] <= sw2 <= B['cap'] and 0 <= s02 <= B['cap'] and 0 <= nq2 <= 2 and 0 <= q12 <= B['cap'] and 0 <= q22 <= B['cap'] and 0 <= prod2 <= 2
-    pre: (nq0 >= 1 or q10 == 0) and (nq0 >= 2 or q20 == 0) and (nq1 >= 1 or q11 == 0) and (nq1 >= 2 or q21 == 0) and (nq2 >= 1 or q12 == 0) and (nq2 >= 2 or q22 == 0)
-    pre: ns >= 2 or (sw1 == 0 and s01 == 0 and nq1 == 0 and not done1 and not act1 and prod1 == 0)
-    pre: ns >= 3 or (sw2 == 0 and s02 == 0 and nq2 == 0 and not done2 and not act2 and prod2 == 0)
-    pre: 0 <= loop <= 2 and (cb or loop != 2) and 0 <= op <= 6 and 0 <= k < ns
-    pre: 0 <= x <= B['cap'] and 0 <= y <= B['cap']
-    pre: not (op == 5 and cb)
+    pre: _state_pre(ns, cw, mfs, (sw0, s00, nq0, q10, q20, done0, act0, prod0), (sw1, s01, nq1, q11, q21, done1, act1, prod1), (sw2, s02, nq2, q12, q22, done2, act2, prod2))
+    pre: _all(_rng(0, loop, 2), rope.bor(cb, loop != 2), _rng(0, op, 6), _rng(0, k, ns - 1), _rng(0, x, B['cap']), _rng(0, y, B['cap']), rope.bor(op != 5, rope.bnot(cb)))
     post: _
     """
     per = _per(ns, (sw0, s00, nq0, q10, q20, done0, act0, prod0), (sw1, s01, nq1, q11, q21, done1, act1, prod1),
@@ -879,16 +931,168 @@ def step_app(ns: int, cw: int, mfs: int, cb: bool, loop: int, op: int, k: int, x
     return True
 
 
-def _nq_shards(tier):
-    ns = BOUNDS[tier]["ns"]
-    out = []
-    for n in range(1, ns + 1):
-        out.append(("ns == %d" % n,))
-    return out
+# ---- histories from a fresh connection ---------------------------------------------------------------------
+
+def _concrete(d, top):
+    for k in range(top + 1):
+        if d == k:
+            return k
+    return top
+
+
+def _run_turns(w, n):
+    for _ in range(n):
+        if not w.turn():
+            break
+        if w.fc.errors:
+            break
+
+
+def _history(ns, cw, iws, mfs, prod, y, cfirst, ops):
+    """ops: (o, k, x): 0 write x bytes on stream k, 1 writeSequence([x, y]) on k, 2 requestDone on k,
+    3 WINDOW_UPDATE(stream k, +x), 4 WINDOW_UPDATE(connection, +x), 5 SETTINGS_INITIAL_WINDOW_SIZE = x,
+    6 SETTINGS_MAX_FRAME_SIZE = x, 7 abort stream k, 8 one reactor turn (scheduler choice x), 9 / 10 the transport
+    pauses / resumes the connection, 11 nothing.  Then: liveness phase, drain phase."""
+    w = _World(ns, cw, iws, mfs)
+    c = w.c
+    if prod:
+        w.register(0)
+    if not w.healthy():
+        return False
+    nitems = ns
+    for (o, k, x) in ops:
+        o = _concrete(o, 11)
+        kk = _concrete(k, ns - 1)
+        if o == 11:
+            continue
+        if o <= 2 and (not w.live(kk) or w.done[kk]):
+            continue                # the application does not write to / finish a finished stream
+        if o == 0:
+            w.write(kk, x)
+            nitems += 1
+        elif o == 1:
+            w.write_seq(kk, x, y)
+            nitems += 2
+        elif o == 2:
+            w.finish(kk)
+        elif o == 3:
+            if x < 1:
+                continue
+            w.window_update(_SIDS[kk], x)
+        elif o == 4:
+            if x < 1:
+                continue
+            w.window_update(0, x)
+        elif o == 5:
+            w.settings_iws(x)
+        elif o == 6:
+            if x < 1:
+                continue
+            w.settings_mfs(x)
+        elif o == 7:
+            if not w.live(kk):
+                continue
+            w.abort(kk)
+        elif o == 8:
+            w.turn(x)
+        elif o == 9:
+            if c._consumerBlocked is not None:
+                continue
+            c.pauseProducing()
+        else:
+            c.resumeProducing()
+        if not w.healthy() or not _prod_events_ok(w):
+            return False
+    cover("ops")
+    # liveness phase: the transport accepts data again, frames may be large; a fair scheduler runs the loop.
+    # Afterwards no stream may be left with data queued and a positive window.
+    turns = ns * (nitems + 1) + 2
+    c.resumeProducing()
+    w.settings_mfs(_BIG)
+    _run_turns(w, turns)
+    if not w.healthy() or not _prod_events_ok(w):
+        return False
+    for i in range(ns):
+        if w.live(i):
+            chunks, nsent, last = w.queue_parts(i)
+            n = 0
+            for ch in chunks:
+                n = n + len(ch)
+            if n > 0 and w.fc.local_flow_control_window(_SIDS[i]) > 0:
+                return False        # data queued, window open, yet not sent
+            if n == 0 and nsent:
+                return False        # only the end marker is left, yet END_STREAM not sent
+    cover("live")
+    # drain phase: the peer opens every window wide
+    if cfirst:
+        w.window_update(0, _BIG)
+    for i in range(ns):
+        if w.live(i):
+            w.window_update(_SIDS[i], _BIG)
+    if not cfirst:
+        w.window_update(0, _BIG)
+    _run_turns(w, turns)
+    cover()
+    if not w.healthy() or not _prod_events_ok(w):
+        return False
+    if c._sendingDeferred is None:
+        return False                # everything is sent: the loop must be asleep, not spinning
+    for i in range(ns):
+        if w.aborted[i]:
+            continue
+        if w.sent_len(i) != w.W[i]:
+            return False            # the complete body reached the peer
+        if w.done[i]:
+            if w.live(i):
+                return False        # finished: END_STREAM sent, state released (healthy() checks once / last)
+        else:
+            if not w.live(i) or len(c._outboundStreamQueues[_SIDS[i]]) != 0:
+                return False
+            if _prod_state(w, i) == 2:
+                return False        # a producer is not left paused with the window wide open
+    return True
+
+
+def history(ns: int, cw: int, iws: int, mfs: int, prod: bool, y: int, cfirst: bool,
+            o0: int, k0: int, x0: int, o1: int, k1: int, x1: int, o2: int, k2: int, x2: int,
+            o3: int, k3: int, x3: int) -> bool:
+    """
+    pre: _all(_rng(1, ns, B['ns']), _rng(0, cw, B['cap']), _rng(0, iws, B['cap']), _rng(1, mfs, B['cap']), _rng(0, y, B['cap']))
+    pre: _all(_rng(0, o0, 10), _rng(0, o1, 10), _rng(0, o2, 10), _rng(0, o3, 11), rope.bor(o3 == 11, B['hist'] >= 4))
+    pre: _all(_rng(0, k0, ns - 1), _rng(0, k1, ns - 1), _rng(0, k2, ns - 1), _rng(0, k3, ns - 1))
+    pre: _all(_rng(0, x0, B['cap']), _rng(0, x1, B['cap']), _rng(0, x2, B['cap']), _rng(0, x3, B['cap']))
+    post: _
+    """
+    return _history(ns, cw, iws, mfs, prod, y, cfirst, ((o0, k0, x0), (o1, k1, x1), (o2, k2, x2), (o3, k3, x3)))
+
+
+_R1 = "prod1 == 0 and not done1 and nq1 <= 1"      # quick tier: the second stream in a reduced set of states
+
+
+def _turn_shards(tier):
+    if tier == "quick":
+        return [("ns == 1",), ("ns == 2", _R1, "not cb"), ("ns == 2", _R1, "cb")]
+    return [("ns == %d" % n, "nq0 == %d" % a) for n in range(1, BOUNDS[tier]["ns"] + 1) for a in range(3)]
+
+
+def _event_shards(tier):
+    if tier == "quick":
+        return ([("ns == 1", "loop == %d" % l) for l in range(3)]
+                + [("ns == 2", _R1, "loop == %d" % l, "ev == %d" % e) for l in range(3) for e in range(4)])
+    return [("ns == %d" % n, "loop == %d" % l, "ev == %d" % e) for n in range(1, BOUNDS[tier]["ns"] + 1)
+            for l in range(3) for e in range(4)]
+
+
+def _app_shards(tier):
+    if tier == "quick":
+        return ([("ns == 1", "loop == %d" % l) for l in range(3)]
+                + [("ns == 2", _R1, "op == %d" % o) for o in range(7)])
+    return [("ns == %d" % n, "loop == %d" % l, "op == %d" % o) for n in range(1, BOUNDS[tier]["ns"] + 1)
+            for l in range(3) for o in range(7)]
 
 
 HARNESSES = [
-    H(step_turn, shards=_nq_shards, timeout={"quick": 60, "thorough": 600}, labels=("end", "ended", "sent")),
-    H(step_event, shards=_nq_shards, timeout={"quick": 60, "thorough": 600}),
-    H(step_app, shards=_nq_shards, timeout={"quick": 60, "thorough": 600}),
+    H(step_turn, shards=_turn_shards, timeout={"quick": 90, "thorough": 900}, labels=("end", "ended", "sent")),
+    H(step_event, shards=_event_shards, timeout={"quick": 90, "thorough": 900}),
+    H(step_app, shards=_app_shards, timeout={"quick": 90, "thorough": 900}),
 ]
